@@ -198,23 +198,26 @@ def simulate(make, W, base_seed):
     import torch
     import kappadata.transforms.base.kd_transform as kdt_mod
 
-    class Info:
-        num_workers = W
+    import torch.utils.data._utils.worker as tw
 
     res = []
     seeds = [base_seed + r for r in range(W)] + [base_seed]  # last one: rank 0's seed again (reproducibility)
-    saved = kdt_mod.get_worker_info
-    kdt_mod.get_worker_info = lambda: Info()
+    saved_info = tw._worker_info
     try:
         for k, seed in enumerate(seeds):
             np.random.seed(424242)  # identical construction-time state = identical copies, as after fork
             torch.manual_seed(424242)
             st = make()
+            rank = k if k < W else 0
+            # what torch's worker loop sets up before calling worker_init_fn: the worker info (seed = base_seed + worker id,
+            # visible through torch.utils.data.get_worker_info() wherever the library imported it from) and the global seeds
+            tw._worker_info = tw.WorkerInfo(id=rank, num_workers=W, seed=seed, dataset=st)
             np.random.seed(seed)
-            st.worker_init_fn(k if k < W else 0, batch_size=2, updates=4)
+            torch.manual_seed(seed)
+            st.worker_init_fn(rank, batch_size=2, updates=4)
             res.append(windows(st))
     finally:
-        kdt_mod.get_worker_info = saved
+        tw._worker_info = saved_info
     return res, seeds
 
 
@@ -245,6 +248,17 @@ def check(make, label, case, p):
                     p.violation(f"C09:same_worker_seed_not_reproducible|{abstract(path)}", dict(case, W=W, base_seed=base, path=path),
                                 f"{label}: generator {path}: two workers with seed {seeds[0]} draw different streams")
                 for a in range(W):
+                    for b in range(W):
+                        if a == b:
+                            continue
+                        # a generator of one worker must not share a stream with ANY generator of another worker
+                        for other in sorted(paths):
+                            if other != path and overlap(res[a][path], res[b][other]):
+                                p.violation(f"C09:workers_share_a_stream_across_members|{abstract(path)}",
+                                            dict(case, W=W, base_seed=base, path=path, other=other),
+                                            f"{label}: generator {path} of worker {a} (seed {seeds[a]}) and generator {other} of worker {b} "
+                                            f"(seed {seeds[b]}) draw from one stream after worker_init_fn")
+                                break
                     for b in range(a + 1, W):
                         if overlap(res[a][path], res[b][path]):
                             same = res[a][path] == res[b][path]
@@ -293,7 +307,8 @@ def run(run):
                                  base_seeds=[0, 1234], window=WINDOW), stack_instances=len(items))
     run.assumptions += [
         "a simulated worker is an identical reconstruction of the stack (same global RNG state at construction, as after fork), "
-        "then np.random.seed(worker seed) and dataset.worker_init_fn(rank) with get_worker_info patched to report W",
+        "then torch's worker info is installed (id, num_workers, seed = base seed + id), the global seeds are set and "
+        "dataset.worker_init_fn(rank) runs",
         "stochastic members inside user-written root datasets or torchvision containers are outside the library's hook chain",
         "components that create a fresh OS-entropy generator per call (unseeded KDMixWrapper) hold no generator and are not observed",
     ]
